@@ -18,7 +18,7 @@ DIMS = {
     "vb_aspect": ["1:1", "2:1", "1:2", "4:1", "1:4"],
     "metrics": [[1024, 950, -250], [1000, 800, -200], [2048, 1900, -500], [100, 100, 0], [1000, 1000, 0], [16384, 15000, -1000]],
     "width": [1275, 0, 1000, 3000],
-    "user": ["", "translate(0,-50)", "scale(0.9)", "scale(1.1,0.8)", "rotate(10)", "skewX(12)", "matrix(1 0 0 -1 0 700)", "scale(0)"],
+    "user": ["", "translate(0,-50)", "scale(0.9)", "scale(1.1,0.8)", "rotate(10)", "rotate(45)", "skewX(12)", "matrix(1 0 0 -1 0 700)", "scale(0)"],
     "tol": [0.1, -1, 0.5, 0.01, 1e-9],
     "clipq": [None, 1, 7, 64, 500],
     "keep": [False, True],
